@@ -50,7 +50,7 @@ var c04Own = map[string][]string{
 
 var c04Mutations = []string{
 	"none", "none", "none",
-	"iss", "aud", "aud-empty", "kind", "kind-empty", "nbf-future", "exp-past",
+	"iss", "aud", "aud-empty", "aud-emptylist", "aud-null", "kind", "kind-empty", "nbf-future", "exp-past",
 	"foreign-key", "alg-none", "hs256-pubkey", "alg-confusion", "truncate", "bitflip-header", "bitflip-payload", "bitflip-sig",
 	"random", "drop-sig", "extra-part",
 }
@@ -172,6 +172,17 @@ func c04Mutate(w *vWorld, tok string, c c04Case) (string, bool) {
 		return reclaim(func(m map[string]interface{}) {
 			if _, ok := m["aud"]; ok {
 				delete(m, "aud")
+			}
+		})
+	case "aud-emptylist", "aud-null":
+		// present but naming nobody (validly signed, structurally odd)
+		return reclaim(func(m map[string]interface{}) {
+			if _, ok := m["aud"]; ok {
+				if c.Mutation == "aud-null" {
+					m["aud"] = nil
+				} else {
+					m["aud"] = []string{}
+				}
 			}
 		})
 	case "kind", "kind-empty":
@@ -370,7 +381,7 @@ func c04Check(c c04Case) *vResult {
 	}
 	own := c04Owns(c.Producer, c.Consumer)
 	// issuer / audience are only demanded of session, CLI and storage tokens
-	if own && (c.Mutation == "iss" || c.Mutation == "aud" || c.Mutation == "aud-empty") &&
+	if own && (c.Mutation == "iss" || strings.HasPrefix(c.Mutation, "aud")) &&
 		(c.Producer == "code" || c.Producer == "access" || c.Producer == "idtoken") {
 		res.label("dont-care:iss-aud-of-oidc-artefact")
 		return res
